@@ -113,6 +113,9 @@ theorem concInv_move (hooks : List Hook) (n : Nat) (e0 : Env) (s : Sys) (i : Nat
           · simp only [List.mem_singleton] at hx; subst hx
             exact rfl
       · exact h
+    · -- the glue's read of the state: unlocked, changes nothing
+      refine ⟨atMostOne_set_notHolding _ _ _ ?_ h.mutex, h.chain, h.last, h.faithful⟩
+      split <;> rfl
     · -- the forced write of ERROR: unlocked
       refine ⟨atMostOne_set_notHolding _ _ _ rfl h.mutex, ?_, ?_, ?_⟩
       · exact chained_append _ _ _ h.chain h.last.symm
